@@ -181,6 +181,13 @@ func runReplay(f *core.Flags, r *core.Result) {
 	}
 }
 
+func gcd(a, b int) int {
+	for b != 0 {
+		a, b = b, a%b
+	}
+	return a
+}
+
 func main() {
 	f := core.ParseFlags()
 	r := core.NewResult(f.Prop)
@@ -198,16 +205,26 @@ func main() {
 	}
 	rn := &runner{f: f, r: r, memo: map[string][]Failure{}, sink: map[string]int64{}}
 	lat := latticeFor(f.Tier)
-	done := 0
+	// Round-robin dealing over the enumeration order balances the shards (see enumOrder); inside a
+	// shard the points are visited with a fixed stride, so that a run cut short by the deadline has
+	// still seen every value of every dimension instead of a lopsided prefix.
+	var mine []Point
 	for i, p := range lat {
-		if !f.Mine(i) {
-			continue
+		if f.Mine(i) {
+			mine = append(mine, p)
 		}
+	}
+	stride := 7919
+	for len(mine) > 0 && gcd(stride, len(mine)) != 1 {
+		stride++
+	}
+	done := 0
+	for k := range mine {
 		if f.Expired() {
 			r.Exhaustive = false
 			break
 		}
-		rn.point(p)
+		rn.point(mine[(k*stride)%len(mine)])
 		done++
 	}
 	r.Extra["sum_configurations_run"] = int64(done)
